@@ -188,6 +188,17 @@ pub fn dependencies(raw: &Raw, band: u32) -> BTreeMap<String, BTreeSet<String>> 
         }
         m.insert(e.apath.clone(), deps);
     }
+    // restoring an entry needs the directories above it, so it also depends on what they depend on
+    let own = m.clone();
+    for (p, deps) in m.iter_mut() {
+        let mut a: &str = p;
+        while a != "/" {
+            a = crate::tree::parent_of(a);
+            if let Some(ad) = own.get(a) {
+                deps.extend(ad.iter().cloned());
+            }
+        }
+    }
     m
 }
 
